@@ -9,11 +9,14 @@ from rvproof.contract import contract
 
 from . import links as L
 
-TECHNIQUE = "contract-based deductive verification of the connect step on array-theory link tables of arbitrary size (quantified invariant, z3); operation histories as labelled small-scope bounded stand-in"
+TECHNIQUE = "contract-based deductive verification of the connect step and of list operands (loop invariants) on array-theory link tables of arbitrary size (quantified invariant, z3); operation histories as labelled small-scope bounded stand-in"
 LEVEL = "other"
 LEVEL_TEXT = (
     "Mixed. (a) Deductive: the single-pair step of Project.connect is verified against the link-table invariant for tables of "
-    "ARBITRARY length and content (array-theory encoding of the four parallel lists, contract c07 'connect_step_*', see evidence); "
+    "ARBITRARY length and content (array-theory encoding of the four parallel lists, contract c07 'connect_step_*', see evidence), "
+    "and list operands of 1x2 / 2x1 (quick) and 2x2 (thorough) modules at arbitrary positions with each element optionally negated "
+    "('connect_lists_on_heap': the loops of connect() are cut with the loop invariant 'LinksOK and every pair already visited is in its "
+    "requested state', proved at every loop head, plus a frame on the tables of all other modules); "
     "(b) bounded: the composition over operation histories, list operands and the operator sugar is an exhaustive small-scope "
     "enumeration of histories run on the real code with the invariant and a reference model evaluated as run-time contracts. "
     "(b) is listed under bounded_parts and is not counted as proved."
